@@ -78,8 +78,18 @@ Cases ==
                                                                /\ x.req.lli <= Len(img.log) + 1 /\ x.req.llt <= img.log[Len(img.log)][2]))}} :
                     img \in {i \in VoteImgs : Len(i.log) = 2 /\ i.ct = 2}}
 
+\* C10: start a real node from every image (with / without snapshot, every staged commit index, the
+\* three store flavours), then crash and restart it once more
+RestartCases ==
+  UNION {UNION {
+     { [flavor |-> fl, img |-> [img EXCEPT !.dcommit = dc, !.vt = v[1], !.vc = v[2]], steps |-> <<Restart>>] :
+         dc \in (IF fl = "ct" THEN 0..(Len(img.log) + 1) ELSE {0}), v \in {<<0, "">>, <<img.ct, "n2">>, <<img.ct - 1, "n1">>} }
+     : fl \in {"", "mono", "ct"} } : img \in Imgs }
+
+AllCases == IF Suite = "restart" THEN RestartCases ELSE Cases
+
 VARIABLE cs
-Init == cs \in Cases /\ PrintT("CASE|" \o ToJson(cs))
+Init == cs \in AllCases /\ PrintT("CASE|" \o ToJson(cs))
 Next == UNCHANGED cs
 Spec == Init /\ [][Next]_cs
 =============================================================================
